@@ -647,4 +647,113 @@ theorem metadata_sets_own_field (st : Metadata) (line v : Str) (key : MetadataKe
   case beatmapSetId => dsimp only; cases i32Parse v <;> (intro h; first | rfl | cases h)
   all_goals (intro _; rfl)
 
+/-! ### `[General]` as a table (all fourteen keys) -/
+
+/-- applying a table entry whose conversion may fail with an error kind (`[General]` reports which
+conversion failed); `none` = key not in the table. -/
+def applyRuleE {σ ε : Type} : Option (Except ε (σ → σ)) → σ → Except ε Unit × σ
+  | none, st => (.ok (), st)
+  | some (.error e), st => (.error e, st)
+  | some (.ok f), st => (.ok (), f st)
+
+/-- conversion "text": the value as it stands. -/
+def gText (set : Str → GeneralState F P → GeneralState F P) :
+    Str → Except GeneralErr (GeneralState F P → GeneralState F P) := fun v => .ok (set v)
+/-- conversion "integer": `i32` within ±(2³¹−1). -/
+def gInt (set : Int → GeneralState F P → GeneralState F P) :
+    Str → Except GeneralErr (GeneralState F P → GeneralState F P) :=
+  fun v => match i32ParseE v with | .ok n => .ok (set n) | .error e => .error (.number e)
+/-- conversion "flag": integer as above, then `== 1`. -/
+def gFlag (set : Bool → GeneralState F P → GeneralState F P) :
+    Str → Except GeneralErr (GeneralState F P → GeneralState F P) := gInt fun n => set (n == 1)
+/-- conversion "f32": finite-range float (`|x| ≤ 2³¹−1`, not NaN). -/
+def gFloat (set : P → GeneralState F P → GeneralState F P) :
+    Str → Except GeneralErr (GeneralState F P → GeneralState F P) :=
+  fun v => match (scalarParse v : Except NumErr P) with | .ok x => .ok (set x) | .error e => .error (.number e)
+/-- conversion "enumeration": one of the admissible texts (`mode_values`, `countdown_values`, `sample_set_values`). -/
+def gEnum {α : Type} (parse : Str → Option α) (err : GeneralErr) (set : α → GeneralState F P → GeneralState F P) :
+    Str → Except GeneralErr (GeneralState F P → GeneralState F P) :=
+  fun v => match parse v with | some a => .ok (set a) | none => .error err
+
+/-- **the `[General]` table**: key text ↦ conversion and field setter. -/
+def generalTable : List (String × (Str → Except GeneralErr (GeneralState F P → GeneralState F P))) :=
+  [ ("AudioFilename",            gText fun v st => { st with audioFile := toStandardizedPath v }),
+    ("AudioLeadIn",              gInt fun n st => { st with audioLeadIn := Scalar.ofInt n }),
+    ("PreviewTime",              gInt fun n st => { st with previewTime := n }),
+    ("SampleSet",                gEnum SampleBank.parse .sampleBank fun b st => { st with defaultSampleBank := b }),
+    ("SampleVolume",             gInt fun n st => { st with defaultSampleVolume := n }),
+    ("StackLeniency",            gFloat fun x st => { st with stackLeniency := x }),
+    ("Mode",                     gEnum GameMode.parse .mode fun m st => { st with mode := m }),
+    ("LetterboxInBreaks",        gFlag fun b st => { st with letterboxInBreaks := b }),
+    ("SpecialStyle",             gFlag fun b st => { st with specialStyle := b }),
+    ("WidescreenStoryboard",     gFlag fun b st => { st with widescreenStoryboard := b }),
+    ("EpilepsyWarning",          gFlag fun b st => { st with epilepsyWarning := b }),
+    ("SamplesMatchPlaybackRate", gFlag fun b st => { st with samplesMatchPlaybackRate := b }),
+    ("Countdown",                gEnum CountdownType.parse .countdownType fun c st => { st with countdown := c }),
+    ("CountdownOffset",          gInt fun n st => { st with countdownOffset := n }) ]
+
+theorem lookupKey_cons_eq {α : Type} (name : String) (a : α) (rest : List (String × α)) :
+    lookupKey (str name) ((name, a) :: rest) = some a := by
+  simp [lookupKey]
+
+theorem general_lookup_none (k : Str) (h : GeneralKey.parse k = none) :
+    lookupKey k (generalTable (F := F) (P := P)) = none := by
+  have hne := (generalKey_parse_none k).mp h
+  unfold generalTable
+  rw [lookupKey_cons_ne k _ _ _ (hne .audioFilename), lookupKey_cons_ne k _ _ _ (hne .audioLeadIn),
+    lookupKey_cons_ne k _ _ _ (hne .previewTime), lookupKey_cons_ne k _ _ _ (hne .sampleSet),
+    lookupKey_cons_ne k _ _ _ (hne .sampleVolume), lookupKey_cons_ne k _ _ _ (hne .stackLeniency),
+    lookupKey_cons_ne k _ _ _ (hne .mode), lookupKey_cons_ne k _ _ _ (hne .letterboxInBreaks),
+    lookupKey_cons_ne k _ _ _ (hne .specialStyle), lookupKey_cons_ne k _ _ _ (hne .widescreenStoryboard),
+    lookupKey_cons_ne k _ _ _ (hne .epilepsyWarning), lookupKey_cons_ne k _ _ _ (hne .samplesMatchPlaybackRate),
+    lookupKey_cons_ne k _ _ _ (hne .countdown), lookupKey_cons_ne k _ _ _ (hne .countdownOffset)]
+  rfl
+
+/-- **section_eq_table** for `[General]`: comment cut off, split at the first colon, key looked up
+(exact match), value converted as the table says, the entry's field set; an unknown key is an accepted
+no-op, a value that does not convert rejects the record with the conversion's error and no effect. -/
+theorem general_eq_table (st : GeneralState F P) (line : Str) :
+    parseGeneral st line =
+      applyRuleE ((lookupKey (kvSplit (trimComment line)).1 generalTable).map (· (kvSplit (trimComment line)).2)) st := by
+  unfold parseGeneral
+  generalize kvSplit (trimComment line) = kv
+  obtain ⟨k, v⟩ := kv
+  dsimp only
+  cases hk : GeneralKey.parse k with
+  | none => rw [general_lookup_none k hk]; rfl
+  | some key =>
+    have hkt := (generalKey_parse_eq k key).mp hk
+    subst hkt
+    cases key <;> simp only [generalKeyText, generalTable] <;>
+      (repeat (first | rw [lookupKey_cons_eq] | rw [lookupKey_cons_ne _ _ _ _ (by decide)])) <;>
+      simp only [Option.map_some, gText, gInt, gFlag, gFloat, gEnum, withI32] <;>
+      first
+        | rfl
+        | (cases i32ParseE v <;> rfl)
+        | (cases SampleBank.parse v <;> rfl)
+        | (cases GameMode.parse v <;> rfl)
+        | (cases CountdownType.parse v <;> rfl)
+        | (cases (scalarParse v : Except NumErr P) <;> rfl)
+
+/-- from the table: whatever the record, a `[General]` line either leaves the state alone or applies
+the one setter of its key's entry. -/
+theorem general_step_cases (st : GeneralState F P) (line : Str) :
+    (parseGeneral st line).2 = st ∨
+    ∃ name conv f, (name, conv) ∈ generalTable (F := F) (P := P) ∧ (kvSplit (trimComment line)).1 = str name ∧
+      conv (kvSplit (trimComment line)).2 = .ok f ∧ parseGeneral st line = (.ok (), f st) := by
+  rw [general_eq_table]
+  cases hl : lookupKey (kvSplit (trimComment line)).1 (generalTable (F := F) (P := P)) with
+  | none => exact Or.inl rfl
+  | some conv =>
+    obtain ⟨name, hmem, hname⟩ := lookupKey_mem _ _ _ hl
+    simp only [Option.map_some]
+    cases hc : conv (kvSplit (trimComment line)).2 with
+    | error e => exact Or.inl rfl
+    | ok f => exact Or.inr ⟨name, conv, f, hmem, hname, hc, rfl⟩
+
+example : (parseGeneral (GeneralState.default (F := Z) (P := Z)) (str "StackLeniency: 3")).2.stackLeniency = ⟨3⟩
+    ∧ (parseGeneral (GeneralState.default (F := Z) (P := Z)) (str "SampleVolume: 40 // quiet")).2.defaultSampleVolume = 40
+    ∧ (parseGeneral (GeneralState.default (F := Z) (P := Z)) (str "CountdownOffset: x")).1 = .error (.number .invalidInteger) :=
+  ⟨by decide, by decide, rfl⟩
+
 end Rosu.C11
